@@ -217,7 +217,14 @@ struct Harness {
 	void checkQueued(const typename Q::QueuedEvent & qe, const MEvent & m, const char * what) {
 		const Val & t = std::get<1>(qe.arguments);
 		if(qe.event != m.key || std::get<0>(qe.arguments) != m.v || t.id != m.id || !t.intact())
-			report("handed-out-event-wrong", fmt("%s handed out (key %d, arg %d, payload %d%s), the model's front event is (key %d, arg %d, payload %d)", what, qe.event, std::get<0>(qe.arguments), t.id, t.intact() ? "" : " damaged", m.key, m.v, m.id));
+			report("handed-out-event-wrong", fmt("%s handed out (key %d, arg %d, payload %d%s), the model's front event is (key %d, arg %d, payload %d)", what, qe.event, std::get<0>(qe.arguments), t.id, t.intact() ? "" : " damaged", m.key, m.v, m.id));		// the accessors of QueuedEvent agree with its fields
+		if(qe.getEvent() != qe.event || qe.template getArgument<0>() != std::get<0>(qe.arguments)) report("handed-out-event-wrong", fmt("%s: QueuedEvent::getEvent()/getArgument<0>() disagree with the event's fields", what));
+		checkArg1(qe, t, what, std::integral_constant<bool, PM::peekable>());
+	}
+	void checkArg1(const typename Q::QueuedEvent &, const Val &, const char *, std::false_type) {}
+	void checkArg1(const typename Q::QueuedEvent & qe, const Val & t, const char * what, std::true_type) {
+		typename PM::UserParam a1 = qe.template getArgument<1>();
+		if(a1.id != t.id || !a1.intact()) report("handed-out-event-wrong", fmt("%s: QueuedEvent::getArgument<1>() yields payload %d%s, the event holds payload %d", what, a1.id, a1.intact() ? "" : " damaged", t.id));
 	}
 	void doPeek() { doPeekImpl(std::integral_constant<bool, PM::peekable>()); }
 	void doPeekImpl(std::false_type) {}
